@@ -20,34 +20,48 @@ func main() {
 	ops := 0
 	for round := 0; round < outer; round++ {
 		for _, sc := range scen.Scenarios() {
-			// sequential reference on a fresh instance
-			ref := scen.Scenarios()
+			// the goroutines run FIRST (on values nobody has touched: lazily filled tables and caches are filled concurrently);
+			// the sequential reference is computed afterwards on a fresh instance, and the recorded results are compared with it
 			var want []string
-			for _, r := range ref {
+			var wg sync.WaitGroup
+			var mu sync.Mutex
+			got := make([]map[string]int, len(sc.Threads)) // per thread: distinct results seen
+			for k := range got {
+				got[k] = map[string]int{}
+			}
+			for g := 0; g < goroutines; g++ {
+				wg.Add(1)
+				go func(g int) {
+					defer wg.Done()
+					k := g % len(sc.Threads)
+					local := map[string]int{}
+					for r := 0; r < rounds; r++ {
+						local[sc.Threads[k].Run()]++
+					}
+					mu.Lock()
+					for res, n := range local {
+						got[k][res] += n
+					}
+					mu.Unlock()
+				}(g)
+			}
+			wg.Wait()
+			// sequential reference on a fresh instance of the same scenario
+			for _, r := range scen.Scenarios() {
 				if r.Name == sc.Name {
 					for _, op := range r.Threads {
 						want = append(want, op.Run())
 					}
 				}
 			}
-			var wg sync.WaitGroup
-			var mu sync.Mutex
 			bad := ""
-			for g := 0; g < goroutines; g++ {
-				wg.Add(1)
-				go func(g int) {
-					defer wg.Done()
-					k := g % len(sc.Threads)
-					for r := 0; r < rounds; r++ {
-						if got := sc.Threads[k].Run(); got != want[k] {
-							mu.Lock()
-							bad = fmt.Sprintf("scenario %q thread %s: concurrent result differs from the sequential one\n got: %.300s\nwant: %.300s", sc.Name, sc.Threads[k].Name, got, want[k])
-							mu.Unlock()
-						}
+			for k := range got {
+				for res := range got[k] {
+					if res != want[k] {
+						bad = fmt.Sprintf("scenario %q thread %s: concurrent result differs from the sequential one\n got: %.300s\nwant: %.300s", sc.Name, sc.Threads[k].Name, res, want[k])
 					}
-				}(g)
+				}
 			}
-			wg.Wait()
 			ops += goroutines * rounds
 			if bad != "" {
 				fmt.Println("RESULT-MISMATCH " + bad)
